@@ -219,6 +219,24 @@ func (w *Worktree) Checkout(opts *CheckoutOptions) error {
 		return err
 	}
 
+	// A checkout that is neither forced nor told to keep local changes is
+	// refused when the worktree has unstaged changes. Find that out before
+	// the branch is created and HEAD is moved, not afterwards in Reset: a
+	// refused checkout must leave everything as it was.
+	if !opts.Force && !opts.Keep {
+		cfg, err := w.r.Config()
+		if err != nil {
+			return err
+		}
+		unstaged, err := w.containsUnstagedChanges(cfg)
+		if err != nil {
+			return err
+		}
+		if unstaged {
+			return ErrUnstagedChanges
+		}
+	}
+
 	if opts.Create {
 		if err := w.createBranch(opts); err != nil {
 			return err
